@@ -248,6 +248,8 @@ def run(ctx):
                 ctx.fail(name, brief(v), site="server/auth/token/auth_token.go:Authenticate", input_class=cls)
             elif v["op"] == "apikey":
                 ctx.fail(name, brief(v), site="server/api_key.go:checkAPIKey", input_class=v["cls"])
+            elif v["op"] == "exchange":
+                ctx.fail(name, v, site="server/session.go:onLogin", input_class=("nologin" if v["nologin"] else "full") + ("+missing" if v["missing"] else ""))
             elif v["op"] == "code":
                 ctx.fail(name, dict(brief(v, step), step=step), site="server/auth/code/auth_code.go:Authenticate", input_class=v["src"])
             elif v["op"] == "basic":
